@@ -20,8 +20,30 @@ using T = int;
 constexpr int DFLT = instr::PREFILL_INT;      // trivially default constructible: the library must not write; the allocator's pre-fill shows through
 static char const* const ELEM = "int";
 #endif
-using Alloc = instr::LA<T>;
+#ifdef HM_ALLOC  // C10 mode: stateful allocator with configurable propagation traits, two distinct instances
+#ifndef HM_CA
+#define HM_CA 0
+#endif
+#ifndef HM_MA
+#define HM_MA 0
+#endif
+#ifndef HM_S
+#define HM_S 0
+#endif
+#ifndef HM_SOCCC
+#define HM_SOCCC 0
+#endif
+using Tr = instr::Traits<(HM_CA != 0), (HM_MA != 0), (HM_S != 0), (HM_SOCCC != 0)>;
+constexpr int IDA = 1, IDB = 2;
+constexpr bool ALLOC_MODE = true;
+#else
+using Tr = instr::DefaultTraits;
+constexpr int IDA = 0, IDB = 0;
+constexpr bool ALLOC_MODE = false;
+#endif
+using Alloc = instr::LA<T, Tr>;
 using Arr = multi::array<T, D, Alloc>;
+static int soccc(int id) { return Tr::soccc_fresh ? id + 100 : id; }
 
 struct Pool {
 	std::unique_ptr<Arr> a, b;
@@ -118,16 +140,30 @@ static void build_ops(bool thorough) {
 	auto shapes = shape_menu(thorough);
 	auto add = [&](OD o) { g_ops.push_back(std::move(o)); };
 	// ---- C04: copy / move / swap / self / decay between slots
-	add({"a=b", "a=b", "C04", F_SAME_EXT_NO_ALLOC, [](MPool& m) { int al = m.a.alloc; m.a = m.b; m.a.alloc = al; return true; }, [](Pool& p) { *p.a = *p.b; }, {}});
-	add({"b=a", "a=b", "C04", F_NONE, [](MPool& m) { int al = m.b.alloc; m.b = m.a; m.b.alloc = al; return true; }, [](Pool& p) { *p.b = *p.a; }, {}});
-	add({"a=std::move(b)", "a=std::move(b)", "C04", F_NO_ELEM_OPS | F_SRC_EMPTY_B, [](MPool& m) { m.a.ext = m.b.ext; m.a.v = m.b.v; m.b.v.clear(); return true; }, [](Pool& p) { *p.a = std::move(*p.b); }, {}});
-	add({"b=std::move(a)", "a=std::move(b)", "C04", F_NO_ELEM_OPS | F_SRC_EMPTY_A, [](MPool& m) { m.b.ext = m.a.ext; m.b.v = m.a.v; m.a.v.clear(); return true; }, [](Pool& p) { *p.b = std::move(*p.a); }, {}});
+	add({"a=b", "a=b", "C04", F_SAME_EXT_NO_ALLOC, [](MPool& m) { int al = m.a.alloc; m.a = m.b; m.a.alloc = Tr::pocca ? m.b.alloc : al; return true; }, [](Pool& p) { *p.a = *p.b; }, {}});
+	add({"b=a", "a=b", "C04", F_NONE, [](MPool& m) { int al = m.b.alloc; m.b = m.a; m.b.alloc = Tr::pocca ? m.a.alloc : al; return true; }, [](Pool& p) { *p.b = *p.a; }, {}});
+	// move assignment: buffer transfer when the allocator propagates or the instances are equal; otherwise element-wise (source valid but unspecified)
+	add({"a=std::move(b)", "a=std::move(b)", "C04", F_NO_ELEM_OPS | F_SRC_EMPTY_B, [](MPool& m) { if(!Tr::pocma && m.a.alloc != m.b.alloc) { return false; } m.a.ext = m.b.ext; m.a.v = m.b.v; m.b.v.clear(); if(Tr::pocma) { m.a.alloc = m.b.alloc; } return true; }, [](Pool& p) { *p.a = std::move(*p.b); }, {}});
+	add({"b=std::move(a)", "a=std::move(b)", "C04", F_NO_ELEM_OPS | F_SRC_EMPTY_A, [](MPool& m) { if(!Tr::pocma && m.a.alloc != m.b.alloc) { return false; } m.b.ext = m.a.ext; m.b.v = m.a.v; m.a.v.clear(); if(Tr::pocma) { m.b.alloc = m.a.alloc; } return true; }, [](Pool& p) { *p.b = std::move(*p.a); }, {}});
+	if(ALLOC_MODE && !Tr::pocma) {
+		add({"a=std::move(b) [unequal non-propagating allocators]", "a=std::move(b)[unequal,non-propagating]", "C04", F_NONE, [](MPool& m) { if(m.a.alloc == m.b.alloc) { return false; } m.a.ext = m.b.ext; m.a.v = m.b.v; m.b_unspecified = true; return true; }, [](Pool& p) { *p.a = std::move(*p.b); }, {}});
+	}
 	add({"a=a", "a=a", "C04", F_SELF | F_NEVER_ALLOC, [](MPool&) { return true; }, [](Pool& p) { auto& r = *p.a; *p.a = r; }, {}});
-	add({"swap(a,b)", "swap(a,b)", "C04", F_NO_ELEM_OPS, [](MPool& m) { std::swap(m.a.ext, m.b.ext); std::swap(m.a.v, m.b.v); return true; }, [](Pool& p) { using std::swap; swap(*p.a, *p.b); }, {}});
-	add({"a.swap(b)", "a.swap(b)", "C04", F_NO_ELEM_OPS, [](MPool& m) { std::swap(m.a.ext, m.b.ext); std::swap(m.a.v, m.b.v); return true; }, [](Pool& p) { p.a->swap(*p.b); }, {}});
-	add({"a=Arr(b)", "copy-construct", "C04", F_NONE, [](MPool& m) { m.a = m.b; return true; }, [](Pool& p) { p.a = std::make_unique<Arr>(*p.b); }, {}});
+	// swap with unequal non-propagating allocators is undefined for every allocator-aware container: out of domain
+	auto m_swap = [](MPool& m) { if(!Tr::pocs && m.a.alloc != m.b.alloc) { return false; } std::swap(m.a.ext, m.b.ext); std::swap(m.a.v, m.b.v); if(Tr::pocs) { std::swap(m.a.alloc, m.b.alloc); } return true; };
+	add({"swap(a,b)", "swap(a,b)", "C04", F_NO_ELEM_OPS, m_swap, [](Pool& p) { using std::swap; swap(*p.a, *p.b); }, {}});
+	add({"a.swap(b)", "a.swap(b)", "C04", F_NO_ELEM_OPS, m_swap, [](Pool& p) { p.a->swap(*p.b); }, {}});
+	add({"a=Arr(b)", "copy-construct", "C04", F_NONE, [](MPool& m) { m.a = m.b; m.a.alloc = soccc(m.b.alloc); return true; }, [](Pool& p) { p.a = std::make_unique<Arr>(*p.b); }, {}});
+	if(ALLOC_MODE) {
+		for(int id : {1, 2}) {
+			std::string sid = std::to_string(id);
+			add({"a=Arr(b,alloc#" + sid + ")", "copy-construct(alloc)", "C04", F_NONE, [id](MPool& m) { m.a = m.b; m.a.alloc = id; return true; }, [id](Pool& p) { p.a = std::make_unique<Arr>(*p.b, Alloc(id)); }, {}});
+			add({"a=Arr(std::move(b),alloc#" + sid + ")", "move-construct(alloc)", "C04", F_NONE,
+				[id](MPool& m) { m.a = m.b; m.a.alloc = id; if(m.b.alloc == id) { m.b.v.clear(); } else { m.b_unspecified = true; } return true; }, [id](Pool& p) { auto t = std::make_unique<Arr>(std::move(*p.b), Alloc(id)); p.a = std::move(t); }, {}});
+		}
+	}
 	add({"a=Arr(std::move(b))", "move-construct", "C04", F_NO_ELEM_OPS | F_SRC_EMPTY_B, [](MPool& m) { m.a = m.b; m.b.v.clear(); return true; }, [](Pool& p) { auto t = std::make_unique<Arr>(std::move(*p.b)); p.a = std::move(t); }, {}});
-	add({"a=+b", "a=+b", "C04", F_NONE, [](MPool& m) { m.a.ext = m.b.ext; m.a.v = m.b.v; return true; }, [](Pool& p) { *p.a = +*p.b; }, {}});
+	add({"a=+b", "a=+b", "C04", F_NONE, [](MPool& m) { m.a.ext = m.b.ext; m.a.v = m.b.v; if(Tr::pocma) { m.a.alloc = soccc(m.b.alloc); } return true; }, [](Pool& p) { *p.a = +*p.b; }, {}});
 	add({"a=Arr()", "default-construct", "C04", F_NONE, [](MPool& m) { m.a = MArr{}; m.a.ext.assign(static_cast<std::size_t>(D), 0); return true; }, [](Pool& p) { p.a = std::make_unique<Arr>(); }, {}});
 	add({"a.front-element=9", "element-write", "C04", F_NEVER_ALLOC, [](MPool& m) { if(m.a.v.empty()) { return false; } m.a.v.front() = 9; return true; }, [](Pool& p) { first_ref(*p.a) = T(9); }, {}});
 	add({"b.back-element=11", "element-write", "C04", F_NEVER_ALLOC, [](MPool& m) { if(m.b.v.empty()) { return false; } m.b.v.back() = 11; return true; }, [](Pool& p) { last_ref(*p.b) = T(11); }, {}});
@@ -135,9 +171,10 @@ static void build_ops(bool thorough) {
 	for(auto const& s : shapes) {
 		std::string ss = ext_str(s);
 		add({"a=Arr(" + ss + ")", "construct(extents)", "C04", F_NONE, [s](MPool& m) { m.a = m_fresh(s, 0, [](idx) { return DFLT; }); return true; }, [s](Pool& p) { p.a = std::make_unique<Arr>(X(s)); }, {}});
-		add({"a=Arr(" + ss + ",alloc)", "construct(extents,alloc)", "C04", F_NONE, [s](MPool& m) { m.a = m_fresh(s, 0, [](idx) { return DFLT; }); return true; }, [s](Pool& p) { p.a = std::make_unique<Arr>(X(s), Alloc{}); }, {}});
+		add({"a=Arr(" + ss + ",alloc)", "construct(extents,alloc)", "C04", F_NONE, [s](MPool& m) { m.a = m_fresh(s, IDA, [](idx) { return DFLT; }); return true; }, [s](Pool& p) { p.a = std::make_unique<Arr>(X(s), Alloc(IDA)); }, {}});
 		add({"b=Arr(" + ss + ",7)", "construct(extents,value)", "C04", F_NONE, [s](MPool& m) { m.b = m_fresh(s, 0, [](idx) { return 7; }); return true; }, [s](Pool& p) { p.b = std::make_unique<Arr>(X(s), T(7)); }, {}});
-		add({"b=Arr(" + ss + ",8,alloc)", "construct(extents,value,alloc)", "C04", F_NONE, [s](MPool& m) { m.b = m_fresh(s, 0, [](idx) { return 8; }); return true; }, [s](Pool& p) { p.b = std::make_unique<Arr>(X(s), T(8), Alloc{}); }, {}});
+		add({"b=Arr(" + ss + ",8,alloc)", "construct(extents,value,alloc)", "C04", F_NONE, [s](MPool& m) { m.b = m_fresh(s, IDB, [](idx) { return 8; }); return true; }, [s](Pool& p) { p.b = std::make_unique<Arr>(X(s), T(8), Alloc(IDB)); }, {}});
+		if(ALLOC_MODE) { add({"b=Arr(" + ss + ",6,alloc#1)", "construct(extents,value,alloc)", "C04", F_NONE, [s](MPool& m) { m.b = m_fresh(s, IDA, [](idx) { return 6; }); return true; }, [s](Pool& p) { p.b = std::make_unique<Arr>(X(s), T(6), Alloc(IDA)); }, {}}); }
 		add({"b=iota" + ss, "construct+element-writes", "C04", F_NONE, [s](MPool& m) { m.b = m_fresh(s, 0, [](idx i) { return static_cast<int>(200 + i); }); return true; }, [s](Pool& p) { p.b = std::make_unique<Arr>(X(s)); iota(*p.b, 200); }, {}});
 		// ---- C06
 		auto rc = [s](MPool const& m) { return rel_class(m.a.ext, m.a.count(), s); };
@@ -151,7 +188,7 @@ static void build_ops(bool thorough) {
 			[s](Pool& p) { std::move(*p.a).reextent(X(s)); }, rc});
 		add({"a.reshape(" + ss + ")", "reshape", "C06", F_NEVER_ALLOC | F_SELF, [s](MPool& m) { if(m.a.count() == 0 || prod(s) != m.a.count()) { return false; } m.a.ext = s; return true; }, [s](Pool& p) { p.a->reshape(X(s)); }, {}});
 		if(prod(s) > 0) {
-			add({"a.assign(first,last)" + ss, "assign(first,last)", "C06", F_NONE, [s](MPool& m) { m.a = m_fresh(s, m.a.alloc, [](idx i) { return static_cast<int>(500 + i); }); return true; },
+			add({"a.assign(first,last)" + ss, "assign(first,last)", "C06", F_ALLOC_UNSPEC, [s](MPool& m) { m.a = m_fresh(s, m.a.alloc, [](idx i) { return static_cast<int>(500 + i); }); return true; },
 				[s](Pool& p) { assign_rows<D, Arr>(*p.a, s, 500, false, nullptr); }, {}});
 			add({"a=Arr(first,last)" + ss, "construct(first,last)", "C04", F_NONE, [s](MPool& m) { m.a = m_fresh(s, 0, [](idx i) { return static_cast<int>(600 + i); }); return true; },
 				[s](Pool& p) { assign_rows<D, Arr>(*p.a, s, 600, true, &p.a); }, {}});
@@ -163,7 +200,7 @@ static void build_ops(bool thorough) {
 	{
 		std::vector<idx> ls; if(D == 1) { ls = {3}; } else if(D == 2) { ls = {3, 2}; } else if(D == 3) { ls = {1, 2, 2}; }
 		if(D <= 3) {
-			add({"a={nested initializer list " + ext_str(ls) + "}", "a={list}", "C06", F_NONE, [ls](MPool& m) { m.a = m_fresh(ls, m.a.alloc, [](idx i) { return static_cast<int>(41 + i); }); return true; },
+			add({"a={nested initializer list " + ext_str(ls) + "}", "a={list}", "C06", F_ALLOC_UNSPEC, [ls](MPool& m) { m.a = m_fresh(ls, m.a.alloc, [](idx i) { return static_cast<int>(41 + i); }); return true; },
 				[](Pool& p) { il_assign<D>(*p.a); }, {}});
 			add({"a=Arr{nested initializer list " + ext_str(ls) + "}", "construct{list}", "C04", F_NONE, [ls](MPool& m) { m.a = m_fresh(ls, 0, [](idx i) { return static_cast<int>(41 + i); }); return true; },
 				[](Pool& p) { p.a = il_construct<D, Arr>(); }, {}});
@@ -175,21 +212,21 @@ static void build_ops(bool thorough) {
 		auto model_assign = [k](MPool& m) { auto const& v = g_views[k]; m.a.ext = v.ext; m.a.v = v.vals; return true; };
 		auto model_ctor = [k](MPool& m) { auto const& v = g_views[k]; m.a = MArr{}; m.a.ext = v.ext; m.a.v = v.vals; return true; };
 		std::string vc = "view:" + vi.name;
-		add({"a=src." + vi.name, "a=view", "C04", F_SAME_EXT_NO_ALLOC, model_assign, [k](Pool& p) { with_view(p, g_views[k], false, [&](auto&& v) { *p.a = v; }); }, [vc](MPool const&) { return vc; }});
+		add({"a=src." + vi.name, "a=view", "C04", F_SAME_EXT_NO_ALLOC | F_ALLOC_UNSPEC, model_assign, [k](Pool& p) { with_view(p, g_views[k], false, [&](auto&& v) { *p.a = v; }); }, [vc](MPool const&) { return vc; }});
 		add({"a=Arr(src." + vi.name + ")", "construct(view)", "C04", F_NONE, model_ctor, [k](Pool& p) { with_view(p, g_views[k], false, [&](auto&& v) { p.a = std::make_unique<Arr>(v); }); }, [vc](MPool const&) { return vc; }});
-		add({"a=+src." + vi.name, "a=+view", "C04", F_NONE, model_assign, [k](Pool& p) { with_view(p, g_views[k], false, [&](auto&& v) { *p.a = +v; }); }, [vc](MPool const&) { return vc; }});
+		add({"a=+src." + vi.name, "a=+view", "C04", F_ALLOC_UNSPEC, model_assign, [k](Pool& p) { with_view(p, g_views[k], false, [&](auto&& v) { *p.a = +v; }); }, [vc](MPool const&) { return vc; }});
 		if(vi.const_safe) {
-			add({"a=as_const(src)." + vi.name, "a=const-view", "C04", F_SAME_EXT_NO_ALLOC, model_assign, [k](Pool& p) { with_view(p, g_views[k], true, [&](auto&& v) { *p.a = v; }); }, [vc](MPool const&) { return vc; }});
+			add({"a=as_const(src)." + vi.name, "a=const-view", "C04", F_SAME_EXT_NO_ALLOC | F_ALLOC_UNSPEC, model_assign, [k](Pool& p) { with_view(p, g_views[k], true, [&](auto&& v) { *p.a = v; }); }, [vc](MPool const&) { return vc; }});
 		}
 	}
 	{
 		auto ss = src_shape();
 		auto model = [ss](MPool& m) { m.a.ext = ss; m.a.v.clear(); for(idx i = 0; i < prod(ss); ++i) { m.a.v.push_back(static_cast<int>(700 + i)); } return true; };
-		add({"a=array<short>", "a=array<other element type>", "C04", F_SAME_EXT_NO_ALLOC, model, [](Pool& p) { *p.a = p.ss; }, {}});
+		add({"a=array<short>", "a=array<other element type>", "C04", F_SAME_EXT_NO_ALLOC | F_ALLOC_UNSPEC, model, [](Pool& p) { *p.a = p.ss; }, {}});
 		add({"a=Arr(array<short>)", "construct(array<other element type>)", "C04", F_NONE, [model](MPool& m) { model(m); m.a.alloc = 0; return true; }, [](Pool& p) { p.a = std::make_unique<Arr>(p.ss); }, {}});
 		if(D >= 2) {
 			std::vector<idx> rs(ss); std::rotate(rs.begin(), rs.begin() + 1, rs.end());
-			add({"a=array<short>.rotated()", "a=view<other element type>", "C04", F_SAME_EXT_NO_ALLOC,
+			add({"a=array<short>.rotated()", "a=view<other element type>", "C04", F_SAME_EXT_NO_ALLOC | F_ALLOC_UNSPEC,
 				[ss, rs](MPool& m) {
 					m.a.ext = rs; m.a.v.clear();
 					vm::MView mv = vm::root_model(ss); vm::m_apply(mv, vm::mk(vm::ROTATED));
@@ -222,14 +259,22 @@ static Outcome run_transition(std::vector<int> const& hist, int op, MPool const&
 		od.real(p);
 		auto fail = [&](std::string o, std::string d) { if(out.ok) { out.ok = false; out.oracle = std::move(o); out.detail = std::move(d); } };
 		if(!W.errs.empty()) { fail("registry:" + W.errs[0], W.errs.size() > 1 ? W.errs[1] : ""); }
-		Cmp ca = compare(*p.a, after.a, "a", true); if(!ca.ok) { fail(ca.oracle, ca.detail); }
-		Cmp cb = compare(*p.b, after.b, "b", true); if(!cb.ok) { fail(cb.oracle, cb.detail); }
+		Cmp ca = compare(*p.a, after.a, "a", !(od.flags & F_ALLOC_UNSPEC)); if(!ca.ok) { fail(ca.oracle, ca.detail); }
+		if(!after.b_unspecified) { Cmp cb = compare(*p.b, after.b, "b", true); if(!cb.ok) { fail(cb.oracle, cb.detail); } }
+		out.alloc_a = p.a->get_allocator().id; out.alloc_b = p.b->get_allocator().id;
+		// provenance: the block a slot owns was produced by the allocator the slot reports
+		for(auto* sl : {p.a.get(), p.b.get()}) {
+			if(sl->num_elements() == 0) { continue; }
+			auto it = W.blocks.find(sl->data_elements());
+			if(it == W.blocks.end()) { fail("storage-not-from-allocator", "data_elements() is not a live block of the ledger"); }
+			else if(it->second.id != sl->get_allocator().id) { fail("block-provenance", "slot reports allocator #" + std::to_string(sl->get_allocator().id) + " but owns a block produced by #" + std::to_string(it->second.id)); }
+		}
 		if(od.flags & F_NO_ELEM_OPS) {
 			if(W.ncopy != c_copy || W.nmove != c_move || W.nassign != c_as || W.nmassign != c_mas || W.nvalue != c_val) { fail("copied-or-moved-elements", "element special members ran during a move/swap of resizable arrays"); }
 			if(W.nalloc != c_alloc) { fail("allocated", "move/swap of resizable arrays allocated"); }
 		}
 		if((od.flags & F_NEVER_ALLOC) && W.nalloc != c_alloc) { fail("allocated", "operation that needs no new storage allocated"); }
-		if((od.flags & F_SAME_EXT_NO_ALLOC) && before.a.count() != 0 && before.a.ext == after.a.ext && before.a.count() == after.a.count() && W.nalloc != c_alloc) { fail("same-extent-assignment-allocated", ""); }
+		if((od.flags & F_SAME_EXT_NO_ALLOC) && before.a.count() != 0 && before.a.ext == after.a.ext && before.a.count() == after.a.count() && before.a.alloc == after.a.alloc && W.nalloc != c_alloc) { fail("same-extent-assignment-allocated", ""); }
 		if((od.flags & F_SELF) && before.a.count() != 0 && p.a->data_elements() != data_a) { fail("storage-moved", "data_elements() changed"); }
 		if((od.flags & F_KEEP_DATA_IF_SAME) && before.a.count() != 0 && before.a.ext == after.a.ext && p.a->data_elements() != data_a) { fail("reextent-to-same-extents-moved-storage", ""); }
 		// pairwise disjoint storage
@@ -250,6 +295,7 @@ static std::string hist_str(std::vector<int> const& h) { std::string s; for(std:
 static std::string hist_ids(std::vector<int> const& h) { std::string s; for(std::size_t i = 0; i < h.size(); ++i) { s += (i ? "," : ""); s += std::to_string(h[i]); } return s; }
 
 static bool is_monitor_oracle(std::string const& o) { return o.rfind("registry", 0) == 0 || o.rfind("leak", 0) == 0; }
+static bool is_alloc_oracle(std::string const& o) { return o == "allocator-id" || o == "block-provenance" || o == "storage-not-from-allocator" || o.find("unequal-allocator") != std::string::npos; }
 
 int main(int argc, char** argv) {
 	mc::Args args(argc, argv);
@@ -260,7 +306,8 @@ int main(int argc, char** argv) {
 	mc::set_deadline(static_cast<double>(args.geti("deadline", 3000)));
 	init_views(); build_ops(thorough);
 	std::string tag = "D" + std::to_string(D) + "|" + ELEM;
-	std::string cfgid = std::string("histmc D=") + std::to_string(D) + " elem=" + ELEM;
+	std::string cfgid = std::string("histmc D=") + std::to_string(D) + " elem=" + ELEM + (ALLOC_MODE ? std::string(" traits{pocca=") + (Tr::pocca ? "1" : "0") + ",pocma=" + (Tr::pocma ? "1" : "0") + ",pocs=" + (Tr::pocs ? "1" : "0") + ",soccc_fresh=" + (Tr::soccc_fresh ? "1" : "0") + "}" : std::string());
+	if(ALLOC_MODE) { tag += std::string("|ca") + (Tr::pocca ? "1" : "0") + "ma" + (Tr::pocma ? "1" : "0") + "s" + (Tr::pocs ? "1" : "0") + (Tr::soccc_fresh ? "f" : ""); }
 
 	auto model_run = [&](std::vector<int> const& h, MPool& m) { m = MPool{}; m.a.ext.assign(static_cast<std::size_t>(D), 0); m.b.ext = m.a.ext; for(int o : h) { if(!g_ops[static_cast<std::size_t>(o)].model(m)) { return false; } } return true; };
 
@@ -301,15 +348,18 @@ int main(int argc, char** argv) {
 				++transitions;
 				std::string cls = od.cls + (od.cls_fn ? "[" + od.cls_fn(st.m) + "]" : "");
 				if(key_of(m2) != key_of(st.m)) { ++changed; }
+				if(od.flags & F_ALLOC_UNSPEC) { m2.a.alloc = o.alloc_a; }
 				if(!o.ok) {
 					bool monitor = is_monitor_oracle(o.oracle);
 					std::string owner = monitor ? "C08" : od.prop;
-					if(prop == "all" || prop == owner) {
-						mc::R.violation(tag + "|" + cls + "|" + o.oracle,
+					bool mine = prop == "all" || prop == owner || (prop == "C10" && (is_alloc_oracle(o.oracle) || !monitor)) || (prop == "C08" && monitor);
+					if(mine) {
+						mc::R.violation(tag + "|" + cls + "|" + o.oracle.substr(0, o.oracle.find('(')),
 							mc::J().s("harness", "histmc").s("config", cfgid).s("replay", rp).s("history", hist_str(st.h)).s("op", od.name).s("oracle", o.oracle).s("detail", o.detail).s("model_before", key_of(st.m)).s("model_after", key_of(m2)).str());
 					}
 					continue;  // violating transitions are not expanded
 				}
+				if(m2.b_unspecified) { continue; }  // source of an element-wise move: valid but unspecified, not continued
 				std::string k = key_of(m2) + "~" + o.strides;
 				if(seen.insert(k).second) {
 					++states;
